@@ -366,3 +366,36 @@ def _reachable(p, mod, root):
                     work.append(nm)
                 # nested closures are walked with ast.walk already
     return seen
+
+
+def rule_hd_countpos(cx, rep, port):
+    """outside EXCEPT the count column of DISTINCT COUNT must be accounted for *before* names are generated (so that colK numbers
+    count it); prepending a name to the finished header is only right where every other name is a source name (EXCEPT)"""
+    w, rows, n = table(cx, port)
+    bad = None
+    good = 0
+    for r in _ok_rows(rows):
+        a = r.atoms
+        if not (a['SELECT'] and a['SELECT.distinct_count']) or a['EXCEPT'] or _header_absent(r):
+            continue
+        seq = []
+        for e in r.events:
+            if e.kind == 'sink' and e.what == 'set_header':
+                break
+            if _prepend_delta(e):
+                seq.append(('adjust', e))
+            if e.kind == 'may_raise_call' and e.what == 'select_output_header' or (e.kind == 'def' and e.what == 'output_header' and 'select_output_header' in node_text(e.extra, 200)):
+                seq.append(('naming', e))
+        kinds = [k for k, _ in seq]
+        if 'naming' not in kinds:
+            continue
+        if 'adjust' in kinds and kinds.index('adjust') > kinds.index('naming'):
+            bad = bad or (r, [e for k, e in seq if k == 'adjust'][0])
+        elif 'adjust' in kinds:
+            good += 1
+    if bad:
+        rep.violated('count column position', bad[1].node, 'in configuration {} the DISTINCT COUNT column is added to the header after the colK names were generated: unnamed columns are numbered by their position in the select list instead of their position in the output (col2 where the record has it third)'.format(bad[0].name()))
+    elif good:
+        rep.holds('count column position', w.fd, '{} DISTINCT COUNT paths: the count column is accounted for before the names are generated'.format(good))
+    else:
+        rep.undecided('count column position', w.fd, 'no DISTINCT COUNT path with a header adjustment found')
